@@ -219,3 +219,80 @@ Proof.
     unfold quit_rest. cbn [fn_body cf_ec_quit]. rewrite exec_seq, exec_seq, exec_expr. xcbn.
     unfold quit_loop in Hloop; cbn [fn_body cf_ec_quit] in Hloop. change (Z.of_nat 0) with 0 in Hloop. rewrite Hloop. reflexivity.
 Qed.
+
+(* ------------------------------------------------------------------ the C loop against the model DirtyAllDefs.quit_n *)
+(* `bad` = the paths the environment can never save to (the empty path of a buffer without a name: open("") fails).  If the loop of the C
+   text ends normally, no occupied slot has such a path *)
+Lemma nths_upd_other t i s k : (i < length t)%nat -> k <> i -> nths (upd t i s) k = nths t k.
+Proof. intros Hi Hk. unfold nths. rewrite nth_upd by exact Hi. destruct (Nat.eqb_spec k i); [contradiction|reflexivity]. Qed.
+
+Lemma arun_done_named ext cb cmd d fuel (bad : val -> Prop) :
+  (forall args mm r m2, bad (nth 3 args VUndef) -> ext X_lbuf_save args mm = Ok (r, m2) -> is_null r = false) ->
+  forall n i t m acc t' m' sv, (i + n = 16)%nat -> length t = 16%nat ->
+  arun ext cb cmd d fuel n i t m acc (ADone t' m' sv) ->
+  forall k, (i <= k < i + n)%nat -> occ t k = true -> ~ bad (cs_path (nths t k)).
+Proof.
+  intros Hbad. induction n as [|n IH]; intros i t m acc t' m' sv Hin Hl Hrun k Hk Ho; [lia|]. cbn [arun] in Hrun.
+  destruct (is_null (cs_lb (nths t i))) eqn:En.
+  - destruct (Nat.eq_dec k i) as [->|Ne]; [unfold occ in Ho; rewrite En in Ho; discriminate|].
+    apply (IH (S i) t m acc t' m' sv ltac:(lia) Hl Hrun k ltac:(lia) Ho).
+  - destruct Hrun as (r & m2 & Hsv & _ & Hrun). destruct (is_null r) eqn:Er; [|discriminate].
+    destruct (Nat.eq_dec k i) as [->|Ne].
+    + intro Hb. assert (X : is_null r = false) by (apply (Hbad (save_args t cmd i) m r m2); [exact Hb|exact Hsv]). congruence.
+    + destruct Hrun as (u3 & m3 & ts & m4 & _ & _ & _ & _ & _ & _ & Hrun).
+      assert (Hl' : length (upd t i (set_cs_mtime (nths t i) (wrap I64 ts))) = 16%nat) by (rewrite upd_length; lia).
+      pose proof (IH (S i) _ _ _ t' m' sv ltac:(lia) Hl' Hrun k ltac:(lia)) as H.
+      rewrite occ_upd_mtime in H by lia. rewrite nths_upd_other in H by (try lia; exact Ne). exact (H Ho).
+Qed.
+
+From NV Require DirtyDefs DirtyAllDefs DirtyProps DirtyAllProps.
+
+(* a table of the model describes the C table: the same slots occupied; a buffer without a name sits in a slot whose path is `bad` *)
+Fixpoint tab_rel (bad : val -> Prop) (t : list cslot) (i : nat) (tab : DirtyAllDefs.ntable) : Prop :=
+  match tab with
+  | [] => True
+  | None :: r => occ t i = false /\ tab_rel bad t (S i) r
+  | Some f :: r => occ t i = true /\ (DirtyDefs.nname f = None -> bad (cs_path (nths t i))) /\ tab_rel bad t (S i) r
+  end.
+
+(* with every slot named and every save answered NULL the model's loop exits *)
+Lemma quit_n_named_exits bang : forall l pre calls, Forall (fun f => DirtyDefs.nname f <> None) (DirtyAllDefs.noccupied l) ->
+  snd (fst (fst (DirtyAllDefs.quit_n true bang pre l [] calls))) = true.
+Proof.
+  induction l as [|[f|] r IH]; intros pre calls H; cbn [DirtyAllDefs.quit_n negb andb]; [reflexivity| |apply IH; exact H].
+  cbn [DirtyAllDefs.noccupied flat_map app] in H. inversion H as [|? ? Hf Hr]; subst.
+  destruct (DirtyDefs.nname f) as [p|] eqn:Nm; [|contradiction]. cbn [DirtyAllDefs.next_ok]. apply IH. exact Hr.
+Qed.
+
+Lemma tab_rel_named bad t : forall tab i, tab_rel bad t i tab ->
+  (forall k, (i <= k < i + length tab)%nat -> occ t k = true -> ~ bad (cs_path (nths t k))) ->
+  Forall (fun f => DirtyDefs.nname f <> None) (DirtyAllDefs.noccupied tab).
+Proof.
+  induction tab as [|[f|] r IH]; intros i R H; cbn [DirtyAllDefs.noccupied flat_map app]; [constructor| |].
+  - destruct R as (O & U & R). constructor.
+    + intro N. apply (H i); [cbn [length]; lia|exact O|exact (U N)].
+    + apply (IH (S i) R). intros k Hk. apply H. cbn [length]. lia.
+  - destruct R as (O & R). apply (IH (S i) R). intros k Hk. apply H. cbn [length]. lia.
+Qed.
+
+(* for the C text: if the `a` loop of ec_quit ends normally (xquit is then stored) in an environment that cannot save to the paths `bad`,
+   and the model table describes the C table, then every buffer of the model table has a name, the model's loop exits too (every save
+   answered NULL), and (DirtyAllProps.xa_every_slot_saved) every buffer's file holds its text, the texts being the ones before *)
+Theorem tr_quit_all_exit_sound ext cb cmd d fuel (bad : val -> Prop) t m t' m' sv bang tab :
+  (forall args mm r m2, bad (nth 3 args VUndef) -> ext X_lbuf_save args mm = Ok (r, m2) -> is_null r = false) ->
+  length t = 16%nat -> length tab = 16%nat -> tab_rel bad t 0 tab -> Forall DirtyProps.NInv (DirtyAllDefs.noccupied tab) ->
+  arun ext cb cmd d fuel 16 0 t m [] (ADone t' m' sv) ->
+  Forall (fun f => DirtyDefs.nname f <> None) (DirtyAllDefs.noccupied tab) /\
+  snd (fst (fst (DirtyAllDefs.quit_n true bang [] tab [] []))) = true /\
+  let tm := fst (fst (fst (DirtyAllDefs.quit_n true bang [] tab [] []))) in
+  Forall DirtyAllProps.good (DirtyAllDefs.noccupied tm) /\
+  map DirtyAllProps.ntext (DirtyAllDefs.noccupied tm) = map DirtyAllProps.ntext (DirtyAllDefs.noccupied tab).
+Proof.
+  intros Hbad Hl Hlt R Inv Hrun.
+  assert (Hn : Forall (fun f => DirtyDefs.nname f <> None) (DirtyAllDefs.noccupied tab)).
+  { apply (tab_rel_named bad t tab 0%nat R). rewrite Hlt. intros k Hk. exact (arun_done_named ext cb cmd d fuel bad Hbad 16 0 t m [] t' m' sv eq_refl Hl Hrun k Hk). }
+  pose proof (quit_n_named_exits bang tab [] [] Hn) as Hq.
+  split; [exact Hn|]. split; [exact Hq|].
+  destruct (DirtyAllDefs.quit_n true bang [] tab [] []) as [[[tm q] cl] s'] eqn:E. cbn [fst snd] in *. subst q.
+  destruct (DirtyAllProps.xa_every_slot_saved bang tab [] tm cl s' Inv E) as (_ & _ & G & T & _). auto.
+Qed.
